@@ -245,12 +245,13 @@ class Ctx:
 
     # -- run a batch of cases of one kind through impl, model and judge ---------------------
     def run_cases(self, kind: Kind, stream: str, cases: List[Any], exhaustive: Optional[bool] = None,
-                  sample_every: int = 0) -> List[str]:
+                  sample_every: int = 0, outs: Optional[List[str]] = None) -> List[str]:
         if stream not in self.streams:
             self.streams.append(stream)
         if exhaustive is not None:
             self.exhaustive[stream] = exhaustive and self.exhaustive.get(stream, True)
-        outs = [kind.impl(a) for a in cases]
+        if outs is None:
+            outs = [kind.impl(a) for a in cases]
         self.evaluations += len(cases)
         dist = self.distribution.setdefault(stream, Counter())
         for a, o in zip(cases, outs):
